@@ -31,6 +31,19 @@ func genPolicyAndInput(t *rapid.T, so *SpecOpts) *Case {
 			spec.Ops = append(spec.Ops, o)
 		}
 	}
+	if rapid.IntRange(0, 11).Draw(t, "rawInContainer") == 0 {
+		// a KEPT raw-text element inside a container in which a tree builder does not treat it as
+		// raw text (foreign content, select, table): its text must still be inert there
+		raw := rapid.SampledFrom([]string{"xmp", "iframe", "noembed", "noframes", "noscript", "textarea", "title"}).Draw(t, "rawEl")
+		cont := rapid.SampledFrom([]string{"svg", "math", "select", "table", "svg"}).Draw(t, "container")
+		spec.Ops = append(spec.Ops, Op{Kind: "AllowElements", Names: []string{cont, raw, "desc", "mtext", "option", "td", "tr"}, ValRe: -1},
+			Op{Kind: "AllowNoAttrs", Scope: "els", Names: []string{raw, cont}, ValRe: -1})
+		inner := rapid.SampledFrom([]string{"<img src=x onerror=alert(1)>", "<script>alert(1)</script>", "<b>x</b>", "</" + raw + "><img src=x>", "<!-- c --><i>", "&lt;img src=x&gt;", "<a href=javascript:x>y"}).Draw(t, "rawInner")
+		mid := rapid.SampledFrom([]string{"", "<desc>", "<mtext>", "<option>", "<tr><td>", "<foreignObject>"}).Draw(t, "mid")
+		c := &Case{Spec: spec, Kind: "raw-in-container", Input: BStr("<" + cont + ">" + mid + "<" + raw + ">" + inner + "</" + raw + "></" + cont + ">t")}
+		c.Ints = []int{drawStage(t, spec)}
+		return c
+	}
 	m := BuildModel(spec)
 	c := &Case{Spec: spec}
 	switch k := rapid.IntRange(0, 9).Draw(t, "treeOrSoup"); {
